@@ -81,13 +81,26 @@ def c10_schema(backend: str) -> Dict[str, Any]:
     m["color"] = {"k": "enum", "enum": "Color", "declared": True, "md": md_method(jet, "color", return_type=jet + "::Color", tree_type="int")}
     m["isColor"] = fn("bool", [("c", "Color")], '(int)c == (int)o->num("color")', lambda o, c: c == o["color"], md=md_method(jet, "isColor", return_type="bool"))
     s["c10_enum"] = {"metadata_type": "define_enum", "namespace": jet.replace("::", "."), "name": "Color", "values": ["Red", "Blue", "Green"]}
+    # an enum three scope levels deep (namespace . class . nested struct)
+    J["nested_enums"] = {"Detail": {"Level": ["Loose", "Medium", "Tight"]}}
+    m["level"] = {"k": "enum", "enum": "Detail::Level", "nvalues": 3, "declared": True, "md": md_method(jet, "level", return_type=jet + "::Detail::Level", tree_type="int")}
+    m["isLevel"] = fn("bool", [("l", "Detail::Level")], '(int)l == (int)o->num("level")', lambda o, l: l == o["level"], md=md_method(jet, "isLevel", return_type="bool"))
+    s["c10_enum3"] = {"metadata_type": "define_enum", "namespace": jet.replace("::", ".") + ".Detail", "name": "Level", "values": ["Loose", "Medium", "Tight"]}
+    # a user declaration that OVERRIDES a method type the backend installs by default
+    if backend == "atlas":
+        tp = s["classes"]["xAOD::TruthParticle"]["members"]
+        tp["prodVtx"] = obj(O, 1, md=md_method("xAOD::TruthParticle", "prodVtx", return_type=O + "*"))
+        s["c10_override"] = ("TruthParticles", "TP", "prodVtx().n()", "int")
+    else:
+        m["isPFMuon"] = num("int", md=md_method(jet, "isPFMuon", return_type="int"))
+        s["c10_override"] = (main, "A", "isPFMuon()", "int")
     return s
 
 
 def enum_globals(s, backend) -> Dict[str, Any]:
     jet = s["collections"][s["main"]["coll"]]["element"]
     parts = jet.split("::")
-    leaf = types.SimpleNamespace(Color=types.SimpleNamespace(Red=0, Blue=1, Green=2))
+    leaf = types.SimpleNamespace(Color=types.SimpleNamespace(Red=0, Blue=1, Green=2), Detail=types.SimpleNamespace(Level=types.SimpleNamespace(Loose=0, Medium=1, Tight=2)))
     node = leaf
     for p in reversed(parts[1:]):
         node = types.SimpleNamespace(**{p: node})
@@ -121,6 +134,13 @@ def templates(s, backend) -> List[Tuple[str, str, str]]:
         T += [(mth, "deref_value", f"j.{mth}().inner_val()"), (mth, "deref_int", f"j.{mth}().inner_n()"), (mth, "deref_then_member", f"j.{mth}().inner_obj().val()"),
               (mth, "deref_arith", f"(j.{mth}().inner_val() * 2 - j.{mth}().inner_n())")]
     T += [("w", "own_member", "j.w().own()"), ("w2", "own_member", "j.w2().own2()")]
+    E3 = jet.replace("::", ".") + ".Detail.Level"
+    T += [("enum3", "compare", f"(j.level() == {E3}.Tight)"), ("enum3", "argument", f"j.isLevel({E3}.Medium)"), ("enum3", "output", "j.level()"),
+          ("enum3", "conditional", f"(1.0 if j.level() != {E3}.Loose else 2.0)")]
+    # math functions applied directly to results reached through one and two dereferences
+    for mth in ("o_ptr", "o_pp", "w", "w2", "w2_p"):
+        mem = "val()" if mth.startswith("o_") else "inner_val()"
+        T += [(mth, "math_on_member", f"sqrt(abs(j.{mth}().{mem}))"), (mth, "math2_on_member", f"atan2(j.{mth}().{mem}, j.pt())"), (mth, "abs_on_member_arith", f"(abs(j.{mth}().{mem}) + 1)")]
     T += [("enum", "compare", f"(j.color() == {E}.Red)"), ("enum", "compare_ne", f"(j.color() != {E}.Green)"), ("enum", "argument", f"j.isColor({E}.Blue)"), ("enum", "output", "j.color()"),
           ("enum", "conditional", f"(1.0 if j.color() == {E}.Blue else 2.0)")]
     return T
@@ -192,7 +212,17 @@ def run(ctx: Ctx) -> int:
                 md = diff.members_used(s, q)
                 if "Color" in q:
                     md = md + [s["c10_enum"]]
+                if "Detail.Level" in q:
+                    md = md + [s["c10_enum3"]]
                 cases.append(diff.Case(b, q, evs, md, schema=s, tag={"form": form, "template": tname, "shape": shape, "expr": expr}, extra_globals=g))
+    # override of a backend default: the user's declaration must win
+    for b in backends:
+        s = schemas[b]
+        coll, bank, expr, want = s["c10_override"]
+        q = f"ds.Select(lambda e: e.{coll}('{bank}').Select(lambda p: p.{expr}))"
+        evs = [evgen.gen_event(s, ctx.rng("evo", b, k), "dense") for k in range(3)]
+        cases.append(diff.Case(b, q, evs, diff.members_used(s, q), schema=s, tag={"form": "override_default", "template": "value", "shape": "event_list", "expr": expr, "want_type": want},
+                               extra_globals=enum_globals(s, b)))
     trs = eng.translate(cases, monitors=["vf.props.c10:contract_monitor"])
     for c in cases:
         eng.model(c.backend, c.schema)
@@ -237,7 +267,9 @@ def run(ctx: Ctx) -> int:
             want = {"nTrk": "int", "m_uint": "unsigned int", "m_short": "short", "width": "float", "isGood": "bool", "und": "double", "t_big": "int", "t_dbl": "float"}
             if t["template"] == "value" and t["form"] in want and base != want[t["form"]]:
                 why = f"column of a bare declared method {t['form']}() is booked as {br}, declared (tree) type is {want[t['form']]}"
-            if t["form"] == "enum" and t["template"] == "output" and base != "int":
+            if t.get("want_type") and base != t["want_type"]:
+                why = f"user declaration overriding a backend default is not honoured: column booked as {br}, declared {t['want_type']}"
+            if t["form"] in ("enum", "enum3") and t["template"] == "output" and base != "int":
                 why = f"enum output declared with tree_type int is booked as {br}"
             if t["form"] == "und":
                 logs = [l for l in r["translate"]["logs"] if l["level"] == "WARNING" and "::und(" in l["msg"] and "double" in l["msg"]]
